@@ -1,1 +1,414 @@
-//! (under construction)
+//! Reader for the DOT dialect the `dot` crate emits (ids, `label="…"` with escape_default undone,
+//! `->` edges), the decision-graph evaluator and the parse-tree term rebuilder.
+
+use crate::refsyn::{Ast, Cmp, Op};
+use crate::tt::Tt;
+use std::collections::{HashMap, HashSet};
+
+#[derive(Debug, Clone)]
+pub struct Dot {
+    pub name: String,
+    /// declaration order
+    pub nodes: Vec<(String, String)>,
+    pub edges: Vec<(String, String, String)>, // (src, label, dst)
+}
+
+fn unescape(s: &str) -> Result<String, String> {
+    let mut out = String::new();
+    let mut it = s.chars().peekable();
+    while let Some(c) = it.next() {
+        if c != '\\' {
+            out.push(c);
+            continue;
+        }
+        match it.next() {
+            Some('n') => out.push('\n'),
+            Some('t') => out.push('\t'),
+            Some('r') => out.push('\r'),
+            Some('\\') => out.push('\\'),
+            Some('\'') => out.push('\''),
+            Some('"') => out.push('"'),
+            Some('0') => out.push('\0'),
+            Some('u') => {
+                if it.next() != Some('{') {
+                    return Err("bad \\u escape".into());
+                }
+                let mut hex = String::new();
+                loop {
+                    match it.next() {
+                        Some('}') => break,
+                        Some(h) => hex.push(h),
+                        None => return Err("unterminated \\u escape".into()),
+                    }
+                }
+                let v = u32::from_str_radix(&hex, 16).map_err(|_| "bad \\u digits".to_string())?;
+                out.push(char::from_u32(v).ok_or("bad code point")?);
+            }
+            other => return Err(format!("unknown escape \\{:?}", other)),
+        }
+    }
+    Ok(out)
+}
+
+/// split `…[label="…"];` into (head, label)
+fn split_label(line: &str) -> Result<(String, String), String> {
+    let key = "[label=\"";
+    let p = line.find(key).ok_or_else(|| format!("no label in {:?}", line))?;
+    let head = line[..p].trim().to_string();
+    let rest = &line[p + key.len()..];
+    // closing quote: first unescaped `"`
+    let mut esc = false;
+    let mut end = None;
+    for (i, c) in rest.char_indices() {
+        if esc {
+            esc = false;
+            continue;
+        }
+        if c == '\\' {
+            esc = true;
+        } else if c == '"' {
+            end = Some(i);
+            break;
+        }
+    }
+    let end = end.ok_or_else(|| format!("unterminated label in {:?}", line))?;
+    if rest[end + 1..].trim() != "];" {
+        return Err(format!("garbage after label in {:?}", line));
+    }
+    Ok((head, unescape(&rest[..end])?))
+}
+
+pub fn parse(text: &str) -> Result<Dot, String> {
+    // labels may contain escaped newlines only (real newlines are escaped by the emitter)
+    let mut lines = text.lines();
+    let first = lines.next().ok_or("empty DOT")?;
+    let name = first.strip_prefix("digraph ").and_then(|r| r.strip_suffix(" {")).ok_or_else(|| format!("bad first line {:?}", first))?.to_string();
+    let mut nodes = Vec::new();
+    let mut edges = Vec::new();
+    let mut closed = false;
+    for l in lines {
+        if closed {
+            if !l.trim().is_empty() {
+                return Err(format!("text after closing brace: {:?}", l));
+            }
+            continue;
+        }
+        if l.trim() == "}" {
+            closed = true;
+            continue;
+        }
+        let (head, label) = split_label(l)?;
+        if let Some((a, b)) = head.split_once(" -> ") {
+            edges.push((a.trim().to_string(), label, b.trim().to_string()));
+        } else {
+            if head.contains(' ') {
+                return Err(format!("bad node id {:?}", head));
+            }
+            nodes.push((head, label));
+        }
+    }
+    if !closed {
+        return Err("missing closing brace".into());
+    }
+    Ok(Dot { name, nodes, edges })
+}
+
+/// Structural checks + evaluation of a BDD export. `filter`: "any" | "true" | "false".
+/// Returns (function over `names`, number of internal nodes declared).
+pub fn eval_bdd_dot(dot: &Dot, names: &[String], filter: &str) -> Result<(Tt, usize), String> {
+    let n = names.len() as u32;
+    let mut decl: HashMap<&str, &str> = HashMap::new();
+    for (id, label) in &dot.nodes {
+        if decl.insert(id.as_str(), label.as_str()).is_some() {
+            return Err(format!("node {} declared twice", id));
+        }
+    }
+    for (leaf, text, keep) in [("n_true", "true", filter != "false"), ("n_false", "false", filter != "true")] {
+        if let Some(l) = decl.get(leaf) {
+            if *l != text {
+                return Err(format!("leaf {} labelled {:?}", leaf, l));
+            }
+            if !keep {
+                return Err(format!("leaf {} must be omitted under filter {}", leaf, filter));
+            }
+        }
+    }
+    let mut t_edge: HashMap<&str, &str> = HashMap::new();
+    let mut f_edge: HashMap<&str, &str> = HashMap::new();
+    let mut has_incoming: HashSet<&str> = HashSet::new();
+    for (a, l, b) in &dot.edges {
+        if !decl.contains_key(a.as_str()) {
+            return Err(format!("edge from undeclared node {}", a));
+        }
+        if !decl.contains_key(b.as_str()) {
+            return Err(format!("edge to undeclared node {}", b));
+        }
+        if a == "n_true" || a == "n_false" {
+            return Err("edge leaving a leaf".into());
+        }
+        let m = match l.as_str() {
+            "T" => &mut t_edge,
+            "F" => &mut f_edge,
+            other => return Err(format!("edge label {:?}", other)),
+        };
+        if m.insert(a.as_str(), b.as_str()).is_some() {
+            return Err(format!("node {} has two {} edges", a, l));
+        }
+        has_incoming.insert(b.as_str());
+    }
+    let internal: Vec<&str> = dot.nodes.iter().map(|x| x.0.as_str()).filter(|id| *id != "n_true" && *id != "n_false").collect();
+    for id in &internal {
+        let (t, f) = (t_edge.contains_key(id), f_edge.contains_key(id));
+        match filter {
+            "any" if !(t && f) => return Err(format!("node {} lacks a T or F edge", id)),
+            _ if !t && !f => return Err(format!("node {} has no outgoing edge", id)),
+            _ => {}
+        }
+    }
+    // root
+    let roots: Vec<&str> = internal.iter().filter(|id| !has_incoming.contains(**id)).cloned().collect();
+    let omitted = match filter {
+        "true" => Some(false),
+        "false" => Some(true),
+        _ => None,
+    };
+    fn go<'a>(
+        id: &'a str,
+        decl: &HashMap<&'a str, &'a str>,
+        t_edge: &HashMap<&'a str, &'a str>,
+        f_edge: &HashMap<&'a str, &'a str>,
+        names: &[String],
+        n: u32,
+        omitted: Option<bool>,
+        memo: &mut HashMap<&'a str, Tt>,
+        path: &mut Vec<&'a str>,
+        visited: &mut HashSet<&'a str>,
+    ) -> Result<Tt, String> {
+        if id == "n_true" {
+            return Ok(Tt::constant(n, true));
+        }
+        if id == "n_false" {
+            return Ok(Tt::constant(n, false));
+        }
+        if let Some(t) = memo.get(id) {
+            return Ok(t.clone());
+        }
+        if path.contains(&id) {
+            return Err("cycle in the graph".into());
+        }
+        visited.insert(id);
+        path.push(id);
+        let label = decl[id];
+        let i = names.iter().position(|x| x == label).ok_or_else(|| format!("test node labelled {:?}, not a variable of the diagram", label))? as u32;
+        let mut branch = |m: &HashMap<&'a str, &'a str>, memo: &mut HashMap<&'a str, Tt>, path: &mut Vec<&'a str>, visited: &mut HashSet<&'a str>| -> Result<Tt, String> {
+            match m.get(id) {
+                Some(next) => go(next, decl, t_edge, f_edge, names, n, omitted, memo, path, visited),
+                None => match omitted {
+                    Some(b) => Ok(Tt::constant(n, b)),
+                    None => Err(format!("node {} lacks an edge", id)),
+                },
+            }
+        };
+        let hi = branch(t_edge, memo, path, visited)?;
+        let lo = branch(f_edge, memo, path, visited)?;
+        path.pop();
+        let r = Tt::var(n, i).ite(&hi, &lo);
+        memo.insert(id, r.clone());
+        Ok(r)
+    }
+    let mut visited = HashSet::new();
+    let table = if internal.is_empty() {
+        // a constant: exactly the kept leaf may be declared
+        let leaves: Vec<&str> = dot.nodes.iter().map(|x| x.0.as_str()).collect();
+        match (leaves.as_slice(), omitted) {
+            ([], Some(b)) => Tt::constant(n, b),
+            (["n_true"], _) => Tt::constant(n, true),
+            (["n_false"], _) => Tt::constant(n, false),
+            _ => return Err(format!("constant diagram declares {:?}", leaves)),
+        }
+    } else {
+        if roots.len() != 1 {
+            return Err(format!("{} root nodes (nodes without incoming edge)", roots.len()));
+        }
+        go(roots[0], &decl, &t_edge, &f_edge, names, n, omitted, &mut HashMap::new(), &mut Vec::new(), &mut visited)?
+    };
+    if visited.len() != internal.len() {
+        return Err("declared node not reachable from the root".into());
+    }
+    // a declared leaf must be the target of some edge (unless the diagram is that leaf)
+    if !internal.is_empty() {
+        for leaf in ["n_true", "n_false"] {
+            if decl.contains_key(leaf) && !has_incoming.contains(leaf) {
+                return Err(format!("leaf {} declared but never referenced", leaf));
+            }
+        }
+    }
+    Ok((table, internal.len()))
+}
+
+fn parse_cmp(s: &str) -> Option<Cmp> {
+    Some(match s {
+        "AtMost" => Cmp::AtMost,
+        "LessThan" => Cmp::LessThan,
+        "AtLeast" => Cmp::AtLeast,
+        "MoreThan" => Cmp::MoreThan,
+        "Exactly" => Cmp::Exactly,
+        _ => return None,
+    })
+}
+
+fn parse_op(s: &str) -> Option<Op> {
+    Some(match s {
+        "And" => Op::And,
+        "Or" => Op::Or,
+        "Xor" => Op::Xor,
+        "Nor" => Op::Nor,
+        "Nand" => Op::Nand,
+        "Implies" => Op::Implies,
+        "ImpliesInv" => Op::ImpliesInv,
+        "Iff" => Op::Iff,
+        _ => return None,
+    })
+}
+
+/// Rebuild the term a parse-tree export denotes (shared identical sub-terms are one node).
+pub fn term_of_parse_tree(dot: &Dot) -> Result<Ast, String> {
+    let mut decl: HashMap<&str, &str> = HashMap::new();
+    for (id, label) in &dot.nodes {
+        if decl.insert(id.as_str(), label.as_str()).is_some() {
+            return Err(format!("node {} declared twice", id));
+        }
+    }
+    let mut out: HashMap<&str, Vec<(&str, &str)>> = HashMap::new();
+    let mut has_incoming: HashSet<&str> = HashSet::new();
+    for (a, l, b) in &dot.edges {
+        if !decl.contains_key(a.as_str()) || !decl.contains_key(b.as_str()) {
+            return Err(format!("edge {} -> {} references an undeclared node", a, b));
+        }
+        out.entry(a.as_str()).or_default().push((l.as_str(), b.as_str()));
+        has_incoming.insert(b.as_str());
+    }
+    let roots: Vec<&str> = dot.nodes.iter().map(|x| x.0.as_str()).filter(|id| !has_incoming.contains(id)).collect();
+    if roots.len() != 1 {
+        return Err(format!("{} roots in the parse tree", roots.len()));
+    }
+    fn child<'a>(out: &HashMap<&'a str, Vec<(&'a str, &'a str)>>, id: &str, label: &str) -> Result<&'a str, String> {
+        let es: Vec<&(&str, &str)> = out.get(id).map(|v| v.iter().filter(|e| e.0 == label).collect()).unwrap_or_default();
+        if es.len() != 1 {
+            return Err(format!("node {} has {} edges labelled {:?}", id, es.len(), label));
+        }
+        Ok(es[0].1)
+    }
+    fn list<'a>(out: &HashMap<&'a str, Vec<(&'a str, &'a str)>>, id: &str, prefix: &str) -> Result<Vec<&'a str>, String> {
+        let mut items: Vec<(usize, &str)> = Vec::new();
+        for (l, t) in out.get(id).map(|v| v.as_slice()).unwrap_or(&[]) {
+            if let Some(rest) = l.strip_prefix(prefix) {
+                if let Some(num) = rest.strip_prefix('{').and_then(|r| r.strip_suffix('}')) {
+                    if let Ok(j) = num.parse::<usize>() {
+                        items.push((j, *t));
+                        continue;
+                    }
+                }
+                if prefix.is_empty() {
+                    return Err(format!("unexpected edge label {:?}", l));
+                }
+            } else if prefix.is_empty() {
+                return Err(format!("unexpected edge label {:?}", l));
+            }
+        }
+        items.sort();
+        for (k, (j, _)) in items.iter().enumerate() {
+            if *j != k {
+                return Err(format!("list positions of node {} are not 0..n", id));
+            }
+        }
+        Ok(items.into_iter().map(|x| x.1).collect())
+    }
+    fn arity_ok(out: &HashMap<&str, Vec<(&str, &str)>>, id: &str, k: usize) -> Result<(), String> {
+        let have = out.get(id).map(|v| v.len()).unwrap_or(0);
+        if have != k {
+            return Err(format!("node {} has {} outgoing edges, expected {}", id, have, k));
+        }
+        Ok(())
+    }
+    fn go<'a>(id: &'a str, decl: &HashMap<&'a str, &'a str>, out: &HashMap<&'a str, Vec<(&'a str, &'a str)>>, depth: usize) -> Result<Ast, String> {
+        if depth > 5000 {
+            return Err("parse tree too deep or cyclic".into());
+        }
+        let label = decl[id];
+        let rec = |c: &'a str| go(c, decl, out, depth + 1);
+        if let Some(op) = parse_op(label) {
+            arity_ok(out, id, 2)?;
+            return Ok(Ast::Bin(op, Box::new(rec(child(out, id, "L")?)?), Box::new(rec(child(out, id, "R")?)?)));
+        }
+        match label {
+            "Not" => {
+                arity_ok(out, id, 1)?;
+                return Ok(Ast::Not(Box::new(rec(child(out, id, "")?)?)));
+            }
+            "Ite" => {
+                arity_ok(out, id, 3)?;
+                return Ok(Ast::Ite(Box::new(rec(child(out, id, "If")?)?), Box::new(rec(child(out, id, "Then")?)?), Box::new(rec(child(out, id, "Else")?)?)));
+            }
+            "False" => {
+                arity_ok(out, id, 0)?;
+                return Ok(Ast::False);
+            }
+            "True" => {
+                arity_ok(out, id, 0)?;
+                return Ok(Ast::True);
+            }
+            _ => {}
+        }
+        if let Some(v) = label.strip_prefix("Var ") {
+            arity_ok(out, id, 0)?;
+            return Ok(Ast::Var(v.to_string()));
+        }
+        if let Some(r) = label.strip_prefix("Ref ") {
+            arity_ok(out, id, 0)?;
+            return Ok(Ast::Ref(r.to_string()));
+        }
+        for (prefix, gfp) in [("GFP ", true), ("LFP ", false)] {
+            if let Some(v) = label.strip_prefix(prefix) {
+                arity_ok(out, id, 1)?;
+                return Ok(Ast::Fix(v.to_string(), gfp, Box::new(rec(child(out, id, "")?)?)));
+            }
+        }
+        for (prefix, forall) in [("Exists [", false), ("Forall [", true)] {
+            if let Some(rest) = label.strip_prefix(prefix) {
+                let inner = rest.strip_suffix(']').ok_or("bad quantifier label")?;
+                let vs: Vec<String> = if inner.is_empty() { vec![] } else { inner.split(", ").map(|s| s.to_string()).collect() };
+                arity_ok(out, id, 1)?;
+                return Ok(Ast::Quant(forall, vs, Box::new(rec(child(out, id, "")?)?)));
+            }
+        }
+        // counting: "<Cmp> <n>" or "<Cmp>"
+        if let Some((c, num)) = label.split_once(' ') {
+            if let (Some(cmp), Ok(nv)) = (parse_cmp(c), num.parse::<u64>()) {
+                let items = list(out, id, "")?;
+                arity_ok(out, id, items.len())?;
+                let mut xs = Vec::new();
+                for i in items {
+                    xs.push(rec(i)?);
+                }
+                return Ok(Ast::CountConst(cmp, xs, nv));
+            }
+        }
+        if let Some(cmp) = parse_cmp(label) {
+            let ls = list(out, id, "L")?;
+            let rs = list(out, id, "R")?;
+            arity_ok(out, id, ls.len() + rs.len())?;
+            let mut xs = Vec::new();
+            for i in ls {
+                xs.push(rec(i)?);
+            }
+            let mut ys = Vec::new();
+            for i in rs {
+                ys.push(rec(i)?);
+            }
+            return Ok(Ast::CountList(cmp, xs, ys));
+        }
+        Err(format!("unknown node label {:?}", label))
+    }
+    go(roots[0], &decl, &out, 0)
+}
